@@ -12,6 +12,13 @@ RULE = ("kinds: gen (PlatePermutation / SampleSegregating / Pairwise through gen
         "experiments; every rng / heappop / argsort answer of the real run is recorded and fed to the model; full row lists (order, "
         "plate labels, masks) compared.  Non-trivial: at least one unobserved experiment; distinct by case description.")
 THEOREMS = {
+    "C11_model_is_source_generate_plates": "the hand-written wrapper model `wrap f` equals, for every inner generator f (in particular the shipped ones: generate_plates g), every screen and every answer stream, the Gallina translation of the whole method RetrospectivePlateGenerator.generate_plates regenerated from /repo's current core.py on this run (Generated/SrcRetro.v)",
+    "C11_model_is_source_smooth_plates": "likewise for RetrospectivePlateSmoother.smooth_plates and every inner smoother (in particular smooth_plates sm for every shipped smoother)",
+    "C11_model_is_source_merge_min_get_plate_sample_id": "the translation of the whole method MergeMinPlateSmoother._get_plate_sample_id (len > 1 test, raise, [0]) regenerated from /repo's retrospective.py, applied to the plate named p of a screen, equals the model's plate_sample p, for all screens and p",
+    "C11_model_is_source_merge_min_smooth_plates": "the translation of the whole method MergeMinPlateSmoother._smooth_plates (loop over samples, heap comprehension, while True with both breaks, two heappops, merge, push) regenerated from /repo's retrospective.py equals the model merge_min for every min_size, screen and answer stream, whenever the explicit while-fuel exceeds the number of experiments of the screen (e.g. fuel = S (length rows))",
+    "C11_model_is_source_create_plate_balanced_holdout_set_among_masked_plates": "the translation of the whole function create_plate_balanced_holdout_set_among_masked_plates (range check and raise, loop over plates, is_observed continue, ceil(plate.size*fraction), rng.choice, selection_vector[indices] = True, both Screen(...) calls, returned pair) regenerated from /repo's retrospective.py equals the model holdout_balanced for every fraction num/den, count mode, screen and answer stream",
+    "C11_model_is_source_merge_tb_get_plate_sample_id": "as C11_model_is_source_merge_min_get_plate_sample_id, for MergeTopBottomPlateSmoother._get_plate_sample_id",
+    "C11_model_is_source_merge_tb_smooth_plates": "the translation of the whole method MergeTopBottomPlateSmoother._smooth_plates (loop over samples, for-range loop with break, comprehension, sort by size, halfway, zip of first half with reversed first half, bigger.merge(smaller)) regenerated from /repo's retrospective.py equals the model merge_tb for every n_iterations and screen",
     "C11_generator_conserves": "every shipped generator, any oracle: generate_plates = Ok out -> out = new ++ observed input rows (unchanged), new all unobserved, new minus plate labels is a Permutation of the unobserved input rows minus plate labels",
     "C11_relabel_conserves": "generic: ANY relabelling of plates (any label oracle) leaves rows-minus-label unchanged, in order",
     "C11_smoother_sub": "every shipped smoother, any oracle: smooth_plates = Ok out -> out = new ++ observed input rows, new all unobserved, exists rest with Permutation (strip new ++ rest) (strip unobserved input)",
@@ -40,7 +47,37 @@ EXPLANATION = ("Models: Model/Retro.v (wrappers, PlatePermutation, SampleSegrega
                "vector, so they hold for every oracle answer; only the per-plate hold-out counts need the numpy choice contract.  "
                "The models of Pairwise's last choice and of SparseCover refuse an answer outside the offered array (state-dependent "
                "contract, tag 94).  Not modelled: ids (only their order), logging, numpy copy semantics (in-place Plate.merge is "
-               "modelled functionally).")
+               "modelled functionally).  "
+               "SOURCE LINKS (C11_model_is_source_*): seven whole functions of /repo are re-translated into Gallina on every run "
+               "(harness/py2gal.py, fail-closed; configurations C11_* / C13_* in harness/src_functions.py; output "
+               "Generated/SrcRetro.v) and Proofs/C11Source.v proves each translation equal to the hand-written model for all inputs: "
+               "RetrospectivePlateGenerator.generate_plates and RetrospectivePlateSmoother.smooth_plates (core.py; = wrap f for "
+               "EVERY inner f), MergeMinPlateSmoother._get_plate_sample_id and ._smooth_plates (the `while True` becomes recursion "
+               "on an explicit fuel parameter, Err 97 when it runs out; the link holds whenever fuel > number of experiments), and "
+               "MergeTopBottomPlateSmoother._get_plate_sample_id and ._smooth_plates (its `break` in a for loop is PyRt.res_fold_brk), "
+               "create_plate_balanced_holdout_set_among_masked_plates.  A change of these functions changes the generated "
+               "definition: either the translator refuses it (build stops) or the linking proof no longer compiles (broken "
+               "obligation).  Loops, branches, `is None` checks, raises, break/continue, the comprehension, tuple returns and "
+               "integer arithmetic come from the translation.  TRUSTED there: the translator with its run-time library Lib/PyRt.v "
+               "(res_fold, res_fold_brk, res_while, res_filter, unwrap, zrange) and exactly these primitives (meanings in the last sections of "
+               "Model/Retro.v and Model/RetroHoldout.v; a Screen / ScreenSubset is its row list, a Plate its selection vector "
+               "into its parent screen, the rng / heappop answers are the stream `ds`): wrappers - screen.subset_unobserved() "
+               "and .subset_observed() (None when empty, else the unobserved / observed rows), subset.to_screen() (identity on "
+               "rows), a.combine(b) (construct (a ++ b)), self._generate_plates / self._smooth_plates(s, rng) (an ARBITRARY "
+               "function f s ds); MergeMin - self.min_size, screen.unique_sample_ids (sorted unique sample names), "
+               "screen.plates (selection vectors in sorted plate-name order), plate.unique_sample_ids, len(), a[0] (IndexError "
+               "= Err 92 on empty), plate.size, heapq.heapify (identity on the item list), heapq.heappush (append), "
+               "heapq.heappop (Model pop: the recorded answer, refused unless a smallest item), b.merge(a) (Model merge on the "
+               "parent current_screen), self._get_plate_sample_id (= the translated method on current_screen); MergeTopBottom - "
+               "self.n_iterations, unique_sample_ids / plates / len / merge / _get_plate_sample_id as for MergeMin, "
+               "math.floor(len(l) / 2) (integer quotient), sorted(l, key=lambda x: x.size) (Model sort_sz, stable insertion sort "
+               "by size), zip (combine), list(reversed(l)) (rev), l[:n] (firstn); hold-out - "
+               "`fraction < 0` (num < 0), `fraction > 1` (den < num), np.zeros(screen.size, dtype=bool), screen.plates, "
+               "np.arange(screen.size)[plate.selection_vector], plate.is_observed, plate.size, math.ceil(n * fraction) "
+               "(ceil_count: exact ceiling or the oracle value), rng.choice(a, n, replace=False) (the recorded answer, refused "
+               "unless of length n), selection_vector[i] = True (vor with vof_idx), and the two Screen(...) constructor calls "
+               "matched as whole expressions with all nine keyword arguments (rows not selected / rows selected marked "
+               "observed, then construct).  Not linked: the other generators / smoothers, create_random_holdout.")
 
 
 def gen(rng, tier):
